@@ -309,4 +309,64 @@ theorem classify_view (n : String) (ss : List PyScope) (m : PyScope) (hm : m.inl
       rw [classify_table, contains_flatMap_binds]
       rfl
 
+/-! ### the cache methods -/
+
+/-- the cache of one element holds what modelx holds for it: nothing, or the value `v` -/
+def Rep {V : Type} (s : CSt V) : Option V → Prop
+  | none => s.has = false
+  | some v => s.has = true ∧ s.slot = some v
+
+theorem specCalls_stored {V : Type} (fs : List (Option V)) (v : V) : specCalls fs (some v) = 0 := by
+  cases fs <;> rfl
+
+theorem specReads_stored {V : Type} (f : Option V) (rest : List (Option V)) (v : V) :
+    specReads (f :: rest) (some v) = .value (some v) :: specReads rest (some v) := by
+  cases f <;> rfl
+
+theorem specReads_all_stored {V : Type} (fs : List (Option V)) (v : V) :
+    specReads fs (some v) = fs.map (fun _ => .value (some v)) := by
+  induction fs with
+  | nil => rfl
+  | cons f rest ih => rw [specReads_stored, List.map_cons, ih]
+
+/-- A cache method that follows the protocol shows, for every sequence of reads of one element and whatever
+the formula does at each of them, what modelx shows, and evaluates the formula as often as modelx does. -/
+theorem reads_eq_spec_of_ok {V : Type} {p : CProg} (ok : CacheOK V p) (fs : List (Option V)) :
+    ∀ (s : CSt V) (st : Option V), Rep s st →
+      reads p fs s = specReads fs st ∧ callsAfter p fs s = s.calls + specCalls fs st := by
+  induction fs with
+  | nil => intro s st _; cases st <;> simp [reads, specReads, callsAfter, specCalls]
+  | cons f rest ih =>
+    intro s st hr
+    cases st with
+    | none =>
+      have h : s.has = false := hr
+      cases f with
+      | none =>
+        obtain ⟨h1, h2, _, h4⟩ := ok.fail s h
+        obtain ⟨ihr, ihc⟩ := ih (runCache p none s).2 none h2
+        refine ⟨?_, ?_⟩
+        · simp only [reads, specReads, h1, CRes.seen, ihr]
+        · show callsAfter p rest (runCache p none s).2 = _
+          rw [ihc, h4]
+          simp only [specCalls]
+          omega
+      | some v =>
+        obtain ⟨h1, h2, h3, h4⟩ := ok.succ s v h
+        obtain ⟨ihr, ihc⟩ := ih (runCache p (some v) s).2 (some v) ⟨h2, h3⟩
+        refine ⟨?_, ?_⟩
+        · simp only [reads, specReads, h1, CRes.seen, ihr]
+        · show callsAfter p rest (runCache p (some v) s).2 = _
+          rw [ihc, h4, specCalls_stored]
+          simp only [specCalls]
+    | some v =>
+      obtain ⟨h, hs⟩ := hr
+      obtain ⟨h1, h2, h3, h4⟩ := ok.hit s f h
+      obtain ⟨ihr, ihc⟩ := ih (runCache p f s).2 (some v) ⟨h2, h3.trans hs⟩
+      refine ⟨?_, ?_⟩
+      · rw [specReads_stored]
+        simp only [reads, h1, CRes.seen, ihr, hs]
+      · show callsAfter p rest (runCache p f s).2 = _
+        rw [ihc, h4, specCalls_stored, specCalls_stored]
+
 end MxModel.Export
